@@ -221,6 +221,13 @@ def gen_C08(ctx):
         ch = chr(cp)
         for ident, ty, nm in (("NuGet", "nuget", "a" + ch), ("PyPI", "pypi", ch + "_."), ("PyPI", "pypi", ch)):
             out.append(case("build P %s %s -" % (ident, hx(nm)), "scalars", ident=ident, name_in=nm, expect_name=O.name_rule(ctx.uni, ty, nm)))
+    # letters whose lower-case form is LONGER in UTF-8, followed by upper-case letters (an in-place rewrite bounded by the
+    # old length stops early)
+    for cp in [0x23A, 0x23E, 0x130]:
+        ch = chr(cp)
+        for nm in (ch + "B", "A" + ch + "B", ch + ch + "BC", "a" + ch + "Z", "Json." + ch + "NET", ch + "stanbulGIS", ch * 3 + "XYZ", "x" * 20 + ch + "Q"):
+            for ident, ty in (("NuGet", "nuget"), ("PyPI", "pypi")):
+                out.append(case("build P %s %s -" % (ident, hx(nm)), "growing", ident=ident, name_in=nm, expect_name=O.name_rule(ctx.uni, ty, nm)))
     for cp in [0x1C5, 0x1C8, 0x1CB, 0x1F2, 0x1F88, 0x1FBC, 0x130, 0x212A, 0x3A3]:
         ch = chr(cp)
         for ident, ty, nm in (("NuGet", "nuget", ch), ("NuGet", "nuget", ch + "À"), ("PyPI", "pypi", ch), ("PyPI", "pypi", ch + "-")):
